@@ -104,7 +104,9 @@ def with_decoys(record_one):
     return record
 
 
-def rows_spec(c, rng):
+def rows_spec(c, rng, extra=None):
+    """extra: additional rows (dicts input label -> bool, missing = False) appended to the sampled ones - operand values a
+    random row practically never hits (the one value an equality gadget answers True on)."""
     n = c.input_size
     if n <= EXH_MAX_INPUTS:
         return {'sampled': False}
@@ -124,6 +126,11 @@ def rows_spec(c, rng):
                 cols[l].remove(r)
         cols[ins[j % len(ins)]].append(r)
         cols[ins[j % len(ins)]].sort()
+    for e in (extra or []):
+        k += 1
+        for l in c.inputs:
+            if e.get(l):
+                cols[l].append(k)
     return {'sampled': True, 'nrows': k, 'cols': cols}
 
 
@@ -270,7 +277,7 @@ def le(labels, big):
     return list(reversed(labels)) if big else list(labels)
 
 
-def finish(case, c, pre, rng, returned, checks, outmode, outlabels, basis='', bound=-1):
+def finish(case, c, pre, rng, returned, checks, outmode, outlabels, basis='', bound=-1, extra_rows=None):
     post = project(c)
     case.update({'pre': pre, 'post': post, 'returned': list(returned), 'checks': checks, 'outmode': outmode,
                  'outlabels': list(outlabels), 'basis': basis, 'bound': bound})
@@ -278,7 +285,7 @@ def finish(case, c, pre, rng, returned, checks, outmode, outlabels, basis='', bo
     # netlist is compared with the model's (drift, never a verdict)
     if 'algo' not in case and len(checks) == 1 and checks[0]['op'] in ALGO_OPS and len(post['g']) <= 1500:
         case['algo'] = checks[0]
-    case.update(rows_spec(c, rng))
+    case.update(rows_spec(c, rng, extra_rows))
     if len(post['g']) > 60:
         order = topo_order(post)
         if order is not None:
